@@ -53,4 +53,4 @@ def ks(tier):
 
 def run(tier, seed):
     return runner.run_property("C01", tier, seed, "harness.pools_common", configs(tier), ("assert",), ks(tier),
-                               900 if tier == "quick" else 2400, META, wall_limit=1700 if tier == "quick" else 12000)
+                               900 if tier == "quick" else 1200, META, wall_limit=1700 if tier == "quick" else 5400)
